@@ -149,6 +149,26 @@ def r2_r5(ctx, facts):
     for v in ("FrameFromClient", "VersionNotSupported"):
         ok = v in errs and get32 and all(not b.dominates(get32[0].bb, e) for e in errs[v])
         r5.instance("header-" + v, bool(ok), "a header with a wrong %s must be rejected before the length field is used" % ("direction bit" if v == "FrameFromClient" else "version"), b.span)
+    # ... and what passes is exactly "a response (direction bit set) of protocol version 4": where the length is read, every state
+    # knows (version & 0x7f) == 4 and (version & 0x80) == 0x80
+    if get32:
+        from ..util import cmp_truth
+        dj = dj_of(b, facts)
+        sts = dj.states_at(get32[0].bb)
+
+        def masked_eq(st, mask, val):
+            for k in st:
+                if k[0] == "bin" and k[1] in ("Eq", "Ne", "Lt", "Le", "Gt", "Ge"):
+                    for x, y in ((k[2], k[3]), (k[3], k[2])):
+                        if isinstance(x, tuple) and x[0] == "bin" and x[1] == "BitAnd" and ("const", mask) in (x[2], x[3]) and y == ("const", val):
+                            if cmp_truth(st, "Eq", x, y) == 1:
+                                return True
+            return False
+        r5.instance("version-is-exactly-4", bool(sts) and all(masked_eq(st, 127, 4) for st in sts),
+                    "a frame header passes validation where `(version & 0x7f) == 4` is not known (e.g. only `<= 4` is tested): a v3 / garbage header is taken for a response, the connection is not torn down, "
+                    "its body is delivered to whoever owns the stream id in the untrusted header and the other in-flight requests wait for ever", get32[0].span)
+        r5.instance("direction-bit-is-set", bool(sts) and all(masked_eq(st, 128, 128) for st in sts),
+                    "a frame header passes validation where `(version & 0x80) == 0x80` (a response, not a request) is not known", get32[0].span)
     kb = facts.one(r"^scylla::network::connection::Connection::keepaliver::\{closure#0\}$")
     kt = [bb for bb in kb.live_blocks for s in kb.stmts(bb) if s[0] == "A" and s[2][0] == "agg" and s[2][1][0] == "adt" and s[2][1][2] == "KeepaliveTimeout"]
     to = kb.calls_to("tokio::time::timeout::timeout")
